@@ -121,4 +121,249 @@ theorem relW_move (s : St) (ms : WaitSt) (t : Nat) (a b : TS) (bc : Bcast)
       exact hsolo saved v (h4 a ha)
     · exact h4 ts h0
 
+
+/-! ## monotonicity of the entry/thread correspondence -/
+
+theorem corrW_mono (xp xp' cx : List Nat) (t : Nat) (e : WEntry) (ts : TS)
+    (hsub : ∀ w ∈ xp', w ∈ xp) (h : CorrW xp cx t e ts) : CorrW xp' cx t e ts := by
+  cases ts with
+  | wInv p =>
+    obtain ⟨seen, h1, h2⟩ := h
+    exact ⟨seen, h1, fun w hw => h2 w (hsub w hw)⟩
+  | wParked p ch =>
+    obtain ⟨seen, h1, h2⟩ := h
+    exact ⟨seen, h1, fun w hw => h2 w (hsub w hw)⟩
+  | mRan hs cb rt => cases cb <;> exact h
+  | holdInv k p => exact h
+  | mInv p rt => exact h
+  | holdRan k hs => exact h
+  | tryFailed => exact h
+  | done hs => exact h
+  | wRet r => exact h
+
+theorem any_cons_mono (f : Nat → Bool) (v : Nat) (l : List Nat) (h : l.any f = true) :
+    (v :: l).any f = true := by
+  simp only [List.any_cons, h, Bool.or_true]
+
+theorem corrW_see (xp cx : List Nat) (t v : Nat) (e : WEntry) (ts : TS)
+    (h : CorrW xp cx t e ts) : CorrW (v :: xp) cx t (e.see v) ts := by
+  cases ts with
+  | holdInv k p => obtain ⟨h1, h2⟩ := h; subst h1; exact ⟨rfl, h2⟩
+  | mInv p rt => simp only [CorrW] at h ⊢; subst h; rfl
+  | holdRan k hs =>
+    obtain ⟨⟨sv, h1⟩, h2⟩ := h; subst h1; exact ⟨⟨sv, rfl⟩, h2⟩
+  | tryFailed => obtain ⟨sv, h1⟩ := h; subst h1; exact ⟨sv, rfl⟩
+  | mRan hs cb rt =>
+    cases cb <;> (obtain ⟨sv, h1⟩ := h; subst h1; exact ⟨sv, rfl⟩)
+  | done hs =>
+    rcases h with ⟨sv, h1⟩ | ⟨p, seen, h1⟩
+    · subst h1; exact Or.inl ⟨sv, rfl⟩
+    · subst h1; exact Or.inr ⟨p, v :: seen, rfl⟩
+  | wInv p =>
+    obtain ⟨seen, h1, h2⟩ := h; subst h1
+    refine ⟨v :: seen, rfl, ?_⟩
+    intro w hw; simp at hw ⊢
+    rcases hw with hw | hw
+    · exact Or.inl hw
+    · exact Or.inr (h2 w hw)
+  | wParked p ch =>
+    obtain ⟨seen, h1, h2⟩ := h; subst h1
+    refine ⟨v :: seen, rfl, ?_⟩
+    intro w hw; simp at hw ⊢
+    rcases hw with hw | hw
+    · exact Or.inl hw
+    · exact Or.inr (h2 w hw)
+  | wRet r =>
+    obtain ⟨po, seen, h1, h2⟩ := h; subst h1
+    refine ⟨po, v :: seen, rfl, ?_⟩
+    cases r with
+    | nil => obtain ⟨p, hp, ha⟩ := h2; exact ⟨p, hp, any_cons_mono _ v seen ha⟩
+    | err => obtain ⟨p, hp, ha⟩ := h2; exact ⟨p, hp, any_cons_mono _ v seen ha⟩
+    | canceled => exact h2
+    | badarg => exact h2
+
+theorem isPendSet_see (v : Nat) (e : WEntry) : isPendSet (e.see v) = isPendSet e := by
+  cases e <;> rfl
+
+theorem countP_map_see (v : Nat) (l : List WEntry) :
+    (l.map (WEntry.see v)).countP isPendSet = l.countP isPendSet := by
+  induction l with
+  | nil => rfl
+  | cons a r ih => simp [List.countP_cons, isPendSet_see, ih]
+
+/-! ## group B: a body runs -/
+
+theorem relW_exec (s : St) (ms : WaitSt) (t : Nat) (a : TS) (p : Prog) (mk : List Nat → TS)
+    (hR : RelW s ms) (ha : s.th[t]? = some a) (hpa : TS.pendingProg a = some p)
+    (hinv : Inv (runBody s t p mk)) (htidy : ms.disc = true → Tidy (runBody s t p mk))
+    (hcorr : ∀ e hs, CorrW ms.xposs s.cx t e a →
+      e = .hold (lastSet p) true ∧ CorrW ms.xposs s.cx t e (mk hs))
+    (hmkp : ∀ hs, TS.pendingProg (mk hs) = none)
+    (hsoloB : ∀ saved v x hs, x = v → SoloOK x saved v (mk hs)) :
+    RelW (runBody s t p mk) ms := by
+  have hx := exec_x p s.x s.bc
+  obtain ⟨et, het, hmt⟩ := hR.corr t a ha
+  obtain ⟨hete, _⟩ := hcorr et [] hmt
+  have old : ∀ (u : Nat) (ts : TS), (s.th.set t (mk (exec p s.x s.bc).2.2))[u]? = some ts →
+      (u = t ∧ ts = mk (exec p s.x s.bc).2.2) ∨ (u ≠ t ∧ s.th[u]? = some ts) :=
+    fun u ts hu => getElem?_set_cases s.th t u _ ts hu
+  -- if another call is the solo assigner, this body assigns nothing
+  have keepx : ∀ (d : Nat) (v : Nat), ms.calls[d]? = some (.hold (some v) true) → ms.nset = 1 → d ≠ t →
+      (exec p s.x s.bc).1 = s.x := by
+    intro d v hd hn hdt
+    rw [hx]
+    cases hl : lastSet p with
+    | none => rfl
+    | some w =>
+      exfalso
+      rw [hl] at hete
+      have := one_pendset ms.calls d t _ _ (by rw [← hR.nset]; exact hn) hd (by rw [het, hete]) rfl rfl
+      exact hdt this.symm
+  unfold runBody
+  refine ⟨by simpa [runBody] using hinv, by simp [hR.len], hR.cx,
+    by simpa [runBody] using htidy, ?_, ?_, ?_, hR.nset, ?_⟩
+  · intro u ts hu
+    simp only at hu
+    rcases old u ts hu with ⟨hut, hts⟩ | ⟨_, h0⟩
+    · subst hut; subst hts
+      exact ⟨et, het, (hcorr et _ hmt).2⟩
+    · exact hR.corr u ts h0
+  · simp only
+    rw [hx]
+    cases hl : lastSet p with
+    | none => exact hR.x
+    | some v => exact hR.pendx t a p v ha hpa hl
+  · intro u ts q v hu hq hl
+    simp only at hu
+    rcases old u ts hu with ⟨hut, hts⟩ | ⟨_, h0⟩
+    · subst hts; rw [hmkp] at hq; cases hq
+    · exact hR.pendx u ts q v h0 hq hl
+  · intro d saved hs
+    obtain ⟨v, h1, h2, h3, h4⟩ := hR.solo d saved hs
+    refine ⟨v, h1, h2, h3, ?_⟩
+    intro ts hu
+    simp only at hu ⊢
+    rcases old d ts hu with ⟨hut, hts⟩ | ⟨hdt, h0⟩
+    · subst hut; subst hts
+      apply hsoloB
+      rw [hx]
+      rw [het] at h1
+      rw [hete] at h1
+      simp at h1
+      rw [h1]; rfl
+    · rw [keepx d v h1 h2 hdt]; exact h4 ts h0
+
+/-! ## group C: a lock-and-call is over -/
+
+theorem relW_finish (s : St) (ms : WaitSt) (t : Nat) (a b : TS) (ran : Bool)
+    (hR : RelW s ms) (ha : s.th[t]? = some a)
+    (hinv : Inv { s with th := s.th.set t b })
+    (htidy : ms.disc = true → Tidy { s with th := s.th.set t b })
+    (hca : ∀ e, CorrW ms.xposs s.cx t e a → ∃ sv, e = .hold sv true)
+    (hcb : ∀ xp sv, CorrW xp s.cx t (.hold sv false) b)
+    (hpa : TS.pendingProg a = none) (hpb : TS.pendingProg b = none)
+    (hsa : ∀ saved v, SoloOK s.x saved v a → if ran then s.x = v else s.x ∈ saved) :
+    RelW { s with th := s.th.set t b } (ms.finish t ran) := by
+  obtain ⟨et, het, hmt⟩ := hR.corr t a ha
+  obtain ⟨sv, hsv⟩ := hca et hmt
+  subst hsv
+  have hlt : t < ms.calls.length := lt_of_getElem? het
+  have old : ∀ (u : Nat) (ts : TS), (s.th.set t b)[u]? = some ts →
+      (u = t ∧ ts = b) ∨ (u ≠ t ∧ s.th[u]? = some ts) :=
+    fun u ts hu => getElem?_set_cases s.th t u b ts hu
+  cases sv with
+  | none =>
+    have hfin : ms.finish t ran = { ms with calls := ms.calls.set t (.hold none false) } := by
+      simp [WaitSt.finish, het]
+    rw [hfin]
+    refine ⟨hinv, by simp [hR.len], hR.cx, htidy, ?_, hR.x, ?_, ?_, ?_⟩
+    · intro u ts hu
+      rcases old u ts hu with ⟨hut, hts⟩ | ⟨hut, h0⟩
+      · subst hut; subst hts
+        exact ⟨.hold none false, by simp [hlt], hcb _ _⟩
+      · obtain ⟨e, he, hm⟩ := hR.corr u ts h0
+        exact ⟨e, by simp only; rw [getElem?_set_ne' _ _ _ _ (fun h => hut h.symm)]; exact he, hm⟩
+    · intro u ts q v hu hq hl
+      rcases old u ts hu with ⟨hut, hts⟩ | ⟨_, h0⟩
+      · subst hts; rw [hpb] at hq; cases hq
+      · exact hR.pendx u ts q v h0 hq hl
+    · have h := countP_set isPendSet ms.calls t _ (.hold none false) het
+      simp [isPendSet] at h
+      simp only; rw [h]; exact hR.nset
+    · intro d saved hs
+      obtain ⟨v, h1, h2, h3, h4⟩ := hR.solo d saved hs
+      have hdt : t ≠ d := by intro h; subst h; rw [het] at h1; cases h1
+      refine ⟨v, by simp only; rw [getElem?_set_ne' _ _ _ _ hdt]; exact h1, h2, h3, ?_⟩
+      intro ts hu
+      rcases old d ts hu with ⟨hut, _⟩ | ⟨_, h0⟩
+      · exact absurd hut.symm hdt
+      · exact h4 ts h0
+  | some v =>
+    -- the new set of possible values is contained in the old one, and contains x
+    have hcnt := countP_set isPendSet ms.calls t _ (.hold (some v) false) het
+    simp [isPendSet] at hcnt
+    have hns := hR.nset
+    have key : ∀ xp', (ms.finish t ran).xposs = xp' → (∀ w ∈ xp', w ∈ ms.xposs) ∧ s.x ∈ xp' ∧
+        (∀ (u : Nat) (ts : TS) (q : Prog) (v' : Nat), u ≠ t → s.th[u]? = some ts →
+          TS.pendingProg ts = some q → lastSet q = some v' → v' ∈ xp') := by
+      intro xp' hxp
+      simp only [WaitSt.finish, het] at hxp
+      cases hsolo : ms.solo with
+      | none =>
+        simp [hsolo] at hxp; subst hxp
+        exact ⟨fun w h => h, hR.x, fun u ts q v' _ h0 hq hl => hR.pendx u ts q v' h0 hq hl⟩
+      | some ds =>
+        obtain ⟨d, saved⟩ := ds
+        obtain ⟨v0, g1, g2, g3, g4⟩ := hR.solo d saved hsolo
+        by_cases hdt : d = t
+        · subst hdt
+          rw [het] at g1; simp at g1; subst g1
+          have hso := hsa saved v (g4 a ha)
+          -- no other pending assigning body
+          have noother : ∀ (u : Nat) (ts : TS) (q : Prog) (v' : Nat), u ≠ d → s.th[u]? = some ts →
+              TS.pendingProg ts = some q → lastSet q = some v' → False := by
+            intro u ts q v' hud h0 hq hl
+            obtain ⟨e, he, hm⟩ := hR.corr u ts h0
+            have heq : e = .hold (some v') true := by
+              cases ts <;> simp [TS.pendingProg] at hq
+              · subst hq; simp only [CorrW] at hm; rw [hm.1, hl]
+              · subst hq; simp only [CorrW] at hm; rw [hm, hl]
+            subst heq
+            exact hud (one_pendset ms.calls d u _ _ (by rw [← hns]; exact g2) het he rfl rfl)
+          cases ran with
+          | true =>
+            simp [hsolo] at hxp; subst hxp
+            simp at hso
+            refine ⟨?_, by simp [hso], fun u ts q v' hu h0 hq hl => (noother u ts q v' hu h0 hq hl).elim⟩
+            intro w hw; simp at hw; subst hw; rw [← hso]; exact hR.x
+          | false =>
+            simp [hsolo] at hxp; subst hxp
+            simp at hso
+            exact ⟨g3, hso, fun u ts q v' hu h0 hq hl => (noother u ts q v' hu h0 hq hl).elim⟩
+        · simp [hsolo, hdt] at hxp; subst hxp
+          exact ⟨fun w h => h, hR.x, fun u ts q v' _ h0 hq hl => hR.pendx u ts q v' h0 hq hl⟩
+    obtain ⟨k1, k2, k3⟩ := key _ rfl
+    have hcalls : (ms.finish t ran).calls = ms.calls.set t (.hold (some v) false) := by
+      simp [WaitSt.finish, het]
+    have hnset : (ms.finish t ran).nset = ms.nset - 1 := by simp [WaitSt.finish, het]
+    have hsolo' : (ms.finish t ran).solo = none := by simp [WaitSt.finish, het]
+    have hcx : (ms.finish t ran).cancelled = ms.cancelled := by simp [WaitSt.finish, het]
+    have hdisc : (ms.finish t ran).disc = ms.disc := by simp [WaitSt.finish, het]
+    refine ⟨hinv, by rw [hcalls]; simp [hR.len], by rw [hcx]; exact hR.cx,
+      by rw [hdisc]; exact htidy, ?_, k2, ?_, ?_, ?_⟩
+    · intro u ts hu
+      rw [hcalls]
+      rcases old u ts hu with ⟨hut, hts⟩ | ⟨hut, h0⟩
+      · subst hut; subst hts
+        exact ⟨.hold (some v) false, by simp [hlt], hcb _ _⟩
+      · obtain ⟨e, he, hm⟩ := hR.corr u ts h0
+        exact ⟨e, by rw [getElem?_set_ne' _ _ _ _ (fun h => hut h.symm)]; exact he,
+          corrW_mono _ _ _ _ _ _ k1 hm⟩
+    · intro u ts q v' hu hq hl
+      rcases old u ts hu with ⟨hut, hts⟩ | ⟨hut, h0⟩
+      · subst hts; rw [hpb] at hq; cases hq
+      · exact k3 u ts q v' hut h0 hq hl
+    · rw [hnset, hcalls]; omega
+    · intro d saved hs; rw [hsolo'] at hs; cases hs
+
 end UtilModel.Broadcast
